@@ -270,14 +270,17 @@ structure Layout where
   version : Nat
   deriving Repr, DecidableEq
 
-/-- skip over keys (`nulls = none`) or over values with the given null bitmap; remembers where each one starts -/
+/-- keys (`bm = none`) are never NULL; values are NULL when their bit is set -/
+def nullOf (bm : Option Bytes) (i : Nat) : R Bool :=
+  match bm with
+  | none => .ok false
+  | some b => checkNull b i
+
+/-- skip over keys (`bm = none`) or over values with the given null bitmap; remembers where each one starts -/
 def skipCells (P : Params) (d : Bytes) (bm : Option Bytes) : List Kind → Nat → Nat → R (List Nat × Nat)
   | [], _, c => .ok ([], c)
   | k :: ks, i, c =>
-    let isNull : R Bool := match bm with
-      | none => .ok false
-      | some b => checkNull b i
-    match isNull with
+    match nullOf bm i with
     | .error e => .error e
     | .ok true =>
       match skipCells P d bm ks (i + 1) c with
@@ -622,10 +625,13 @@ structure LRow where
   cur : LVersion
   hist : List (LVersion × List Nat)
   deleter : Option Nat
+  /-- the main part is followed by its alignment gap although no delta follows (what a vacuum that removed every
+      delta leaves behind; invisible to every reader) -/
+  trail : Bool := false
   deriving Repr, DecidableEq
 
 def LRow.insert (keys : List Bytes) (vals : List Cell) (t : Nat) : LRow :=
-  { keys := keys, cur := { creator := t, ver := 0, vals := vals }, hist := [], deleter := none }
+  { keys := keys, cur := { creator := t, ver := 0, vals := vals }, hist := [], deleter := none, trail := false }
 
 /-- the update as it is meant: a new version created by `t`; the previous one becomes history -/
 def LRow.update (L : LRow) (t : Nat) (m : Mods) : LRow :=
@@ -647,7 +653,8 @@ def keepHist (h : Nat) : Bool → List (LVersion × List Nat) → List (LVersion
     else (v, c) :: keepHist h true rest
 
 def LRow.vacuum (L : LRow) (h : Nat) : LRow :=
-  { L with hist := keepHist h (decide (L.cur.creator < h)) L.hist }
+  if L.hist.isEmpty then L
+  else { L with hist := keepHist h (decide (L.cur.creator < h)) L.hist, trail := true }
 
 /-- the first version in `vs` (newest first) whose creator the snapshot may see -/
 def firstVisible (D : Defects) (s : Snapshot) : List LVersion → Option LVersion
@@ -664,17 +671,17 @@ def specVisible (D : Defects) (s : Snapshot) (L : LRow) : Option Row :=
     | some v => some { keys := L.keys, vals := v.vals }
     | none => none
 
-/-- the delta block: every delta starts at a multiple of the header alignment, counted from the block start -/
-def encDeltas (P : Params) (sch : Schema) : List (LVersion × List Nat) → Bytes
-  | [] => []
-  | [(v, c)] => encDelta P sch v.creator v.ver v.vals c
-  | (v, c) :: rest =>
-    let e := encDelta P sch v.creator v.ver v.vals c
-    e ++ padTo e.length P.dhAlign ++ encDeltas P sch rest
+/-- the delta block, written from offset `rel` (counted from the aligned start of the block) on: every delta is
+    preceded by the gap that brings it to a multiple of the header alignment -/
+def encBlock (P : Params) (sch : Schema) : Nat → List (LVersion × List Nat) → Bytes
+  | _, [] => []
+  | rel, (v, c) :: rest =>
+    let e := padTo rel P.dhAlign ++ encDelta P sch v.creator v.ver v.vals c
+    e ++ encBlock P sch (rel + e.length) rest
 
 /-- the bytes of a logical row -/
 def encode (P : Params) (sch : Schema) (L : LRow) : Bytes :=
   let main := encMain P sch L.cur.creator L.deleter L.cur.ver L.keys L.cur.vals
-  if L.hist.isEmpty then main else main ++ padTo main.length P.dhAlign ++ encDeltas P sch L.hist
+  main ++ (if L.hist.isEmpty && !L.trail then [] else padTo main.length P.dhAlign) ++ encBlock P sch 0 L.hist
 
 end AxVerif.Tuple
